@@ -172,7 +172,7 @@ class Source:
             t = dedent(t, ind)
         return Item(name or fn_name, self.rel, self._line_of(b), t)
 
-    def slice(self, fn_name, start_re, end_re, header, name, nth=None):
+    def slice(self, fn_name, start_re, end_re, header, name, nth=None, tail=None):
         """R6: a contiguous statement range of fn_name's body, from the line matching start_re through the line
         matching end_re (inclusive; if that line opens a bracket the statement is taken to its matching close and `;`),
         wrapped as `header { <bytes> }`.  The bytes are copied verbatim and dedented."""
@@ -213,6 +213,13 @@ class Source:
                 e0 = body.find('\n', j)
                 if e0 < 0:
                     e0 = len(body)
+            # a statement continued on following lines: take it up to its terminating `;`
+            if body[s0:e0].rstrip()[-1:] not in (';', '}'):
+                semi = find_top(body, ';', e0)
+                if semi >= 0:
+                    e0 = body.find('\n', semi)
+                    if e0 < 0:
+                        e0 = len(body)
         seg = body[s0:e0]
         # balance check: the slice must be a whole number of statements at one nesting level
         depth = 0
@@ -233,6 +240,8 @@ class Source:
             raise ExtractError('slice %s is not balanced (depth %d at end)' % (name, depth))
         ind = len(re.match(r'[ \t]*', seg).group(0))
         txt = '\n'.join((l[ind - 4:] if l.startswith(' ' * (ind - 4)) else l) for l in seg.split('\n')) if ind >= 4 else indent(seg, 4 - ind)
+        if tail:     # the wrapper returns one of the slice's locals
+            txt = txt + '\n    ' + tail
         item = Item(name, self.rel, self._line_of(o + 1 + s0), header + ' {\n' + txt + '\n}')
         item.orig = seg
         item.sha256 = hashlib.sha256(seg.encode()).hexdigest()
@@ -649,6 +658,30 @@ class Item:
                     % (ind, pat, itname, ind, ind, ind))
         self.text = self.text[:b] + new_hdr + '{' + body_ins + self.text[o + 1:]
         self._log('R13', 'for loop #%d in %s -> loop/next desugaring' % (ordinal, fn_name))
+        return self
+
+    def r20(self, fn_name=None):
+        """`let mut P = E.char_indices().peekable(); while let Some((OFF, C)) = P.next() { .. P.peek().is_some_and(|(_, X)| *X == K) .. }`
+        -> counted loop over the characters (a Vec<char> from the str_chars_vec stub) with a running byte offset:
+        OFF is the sum of len_utf8 of the characters before C, and the peek is a look at the next element."""
+        self._no_splice_yet()
+        t = self.text
+        m1 = re.search(r'^([ \t]*)let mut (\w+) = (\w+)\.char_indices\(\)\.peekable\(\);\n', t, re.M)
+        if not m1:
+            raise ExtractError('%s: R20 shape not found (char_indices().peekable())' % self.name)
+        ind, p, e = m1.groups()
+        m2 = re.search(r'^([ \t]*)while let Some\(\((\w+), (\w+)\)\) = %s\.next\(\) \{\n' % re.escape(p), t, re.M)
+        if not m2:
+            raise ExtractError('%s: R20 shape not found (while let Some((off, c)) = p.next())' % self.name)
+        ind2, off, c = m2.groups()
+        t = t[:m2.start()] + ('%swhile __i < __cs.len() {\n%s    let %s = __cs[__i];\n%s    let %s = __off;\n%s    __off += %s.len_utf8();\n%s    __i += 1;\n'
+                              % (ind2, ind2, c, ind2, off, ind2, c, ind2)) + t[m2.end():]
+        t = t[:m1.start()] + ('%slet __cs = str_chars_vec(%s);\n%slet mut __i: usize = 0;\n%slet mut __off: usize = 0;\n' % (ind, e, ind, ind)) + t[m1.end():]
+        t, k = re.subn(r'%s\.peek\(\)\.is_some_and\(\|\(_, (\w+)\)\| \*\1 == ([^)]+)\)' % re.escape(p), r'(__i < __cs.len() && __cs[__i] == \2)', t)
+        if re.search(r'\b%s\b' % re.escape(p), t):
+            raise ExtractError('%s: R20 the peekable iterator `%s` is used in a way the rule does not cover' % (self.name, p))
+        self.text = t
+        self._log('R20', 'char_indices().peekable() loop -> counted loop with running byte offset (%d peeks rewritten)' % k)
         return self
 
     def r17_cow(self):
